@@ -29,6 +29,12 @@ CLAIMED["C16"] = {
     "note": "trusts: datetime.date arithmetic and stdlib zoneinfo as reference; time-of-day is asserted only where the target wall time is unique or a skipped midnight; one open known finding class (skipped/repeated midnight resolved by the carried fold) is suppressed by signature only",
 }
 
+CLAIMED["C02"] = {
+    "text": "Seeded search over interleavings of local()/tz='local'/now()/explicit-zone construction (datetime, set/on/at/replace, parse(tz=), Timezone.convert/datetime, instance) with a nemesis that sets and clears the mock local zone, rewrites the fake /etc and TZ configuration, arms file-system faults (ENOENT after isfile, EACCES, EIO, EMFILE, short read, garbage/truncated/dangling content) and restarts or heals at barriers. Every result must equal the cold re-execution under one admissible local zone (mock in force during the call, or a zone some configuration source named in the epoch; UTC only when every source can be empty), may raise only when a fault fired or content is invalid, must succeed after heal, and must follow the documented gap/overlap rules computed from the standard library's tz data.",
+    "ref": "DESIGN.md §5 C02",
+    "note": "trusts: stdlib zoneinfo + tzdata package as reference (TZPATH restricted to the package); fake file system stands in for /etc and the environment; which configuration source wins is deliberately not asserted (not part of the property)",
+}
+
 NOT_APPLICABLE = {
     "C03": "pure function of its arguments and immutable zone data: no clock, shared mutable slot, configuration or I/O in add/subtract with fixed units; nothing for a scheduler or fault injector to vary",
     "C04": "pure function of its arguments (calendar arithmetic + construction rules); Duration fields it reads are written once in __new__; no schedule, clock or fault dependence",
@@ -48,10 +54,10 @@ ALL = ["C%02d" % i for i in range(1, 21)]
 
 # designed as simulation targets (DESIGN.md §5) but whose check is not registered yet
 PENDING = {p: "simulation target per DESIGN.md §5, check still under construction in this commit (not claimed yet)"
-           for p in ("C01", "C02", "C06", "C08", "C18")}
+           for p in ("C01", "C06", "C08", "C18")}
 
 FIX_COMMITS = ["0cac821 (C09 lazy-slot race)", "c2f908d (previous() never terminates across a skipped calendar day; C12/C16)",
-               "2c83944 (next() drifts to 01:00 after a skipped midnight; C16)", "6249586 (C12 week configuration read twice)", "1273e62 (C16 first_of/last_of depend on calendar.setfirstweekday())"]
+               "2c83944 (next() drifts to 01:00 after a skipped midnight; C16)", "6249586 (C12 week configuration read twice)", "1273e62 (C16 first_of/last_of depend on calendar.setfirstweekday())", "9fab684 (C02 mock local zone read twice)"]
 
 
 def main():
